@@ -139,6 +139,20 @@ void throw_error () {
 static volatile int in_error = 0;
 static volatile int in_mudlib_error_handler = 0;
 
+#ifdef NEOLITH_VERIF
+/* verification accessors (read-only) */
+int neolith_verif_error_context_depth (void) {
+  int depth = 0;
+  error_context_t *ec;
+  for (ec = current_error_context; ec; ec = ec->save_context)
+    depth++;
+  return depth;
+}
+int neolith_verif_error_flags (void) {
+  return (in_error ? 1 : 0) | (in_mudlib_error_handler ? 2 : 0);
+}
+#endif
+
 static void debug_message_with_location (const char *err) {
   if (current_object && current_prog)
     {
